@@ -92,7 +92,7 @@ func ruleC05Dash(c *Ctx) {
 		return
 	}
 	reads := map[string]bool{}
-	for _, fn := range core.WithAnon(mar) {
+	for _, fn := range c.familyFuncs(mar) {
 		for _, fr := range c.fieldAccesses(fn) {
 			if fr.Owner == "Schema" && !fr.Whole {
 				reads[fr.Field.Name()] = true
@@ -100,7 +100,7 @@ func ruleC05Dash(c *Ctx) {
 		}
 	}
 	writes := map[string]bool{}
-	for _, fn := range core.WithAnon(unm) {
+	for _, fn := range c.familyFuncs(unm) {
 		core.EachInstr(fn, func(i ssa.Instruction) {
 			switch x := i.(type) {
 			case *ssa.Store:
@@ -505,7 +505,7 @@ func ruleC05Integers(c *Ctx) {
 	uf := jsonFieldsOf(ut)
 	// pairs (Schema field, wrapper field) linked by a call that receives &s.F and ms.W
 	linked := map[string]string{}
-	for _, fn := range core.WithAnon(unm) {
+	for _, fn := range c.familyFuncs(unm) {
 		core.EachInstr(fn, func(i ssa.Instruction) {
 			call, ok := i.(ssa.CallInstruction)
 			if !ok {
@@ -759,7 +759,7 @@ func ruleC05UnionVariants(c *Ctx) {
 		"DependencyStrings": {'[', true}, "DependencySchemas": {'[', false},
 	}
 	n := 0
-	for _, fn := range core.WithAnon(unm) {
+	for _, fn := range c.familyFuncs(unm) {
 		core.EachInstr(fn, func(i ssa.Instruction) {
 			var field string
 			var at ssa.Instruction
